@@ -57,12 +57,21 @@ func Harness_C24_invalidation_map_two() {
 // all), then the same range is requested again. If s is inside the range and was invalidated at or
 // after the moment the first load STARTED (minus the linger), the second request must not be served
 // from the first load's rows. Size accounting stays within the bound.
-func Harness_C24_get_freshness() {
-	clock := int64(c24Hour+300) * 1e9
+func Harness_C24_get_freshness() { c24Freshness(c24Hour+300, c24Hour, []int64{-65, -1, 0, 30}) }
+
+// the same, for seconds about 48 h old: the range sits 70..300 s inside the mutable window whose moving
+// boundary (now-48h) lies in the middle of the same hour, so invalidate() prunes the hour bucket that
+// also covers the still-mutable seconds
+func Harness_C24_get_freshness_at_mutable_window_edge() {
+	c24Freshness(c24Hour+48*3600+1500, c24Hour+1500, []int64{70, 300})
+}
+
+func c24Freshness(clock0 int64, fromBase int64, fromOffsets []int64) {
+	clock := clock0 * 1e9
 	now := func() time.Time { return time.Unix(0, clock) }
 	loads := 0
 	when := v.Choice(4) // 0: no invalidation, 1: before the load, 2: during the load, 3: after the load
-	from := c24Hour + []int64{-65, -1, 0, 30}[v.Choice(4)]
+	from := fromBase + fromOffsets[v.Choice(len(fromOffsets))]
 	to := from + []int64{0, 7, 61}[v.Choice(3)]
 	s := from + v.NondetIntRange(-3, 73)
 	var c *pointsCache
